@@ -13,15 +13,19 @@ RULE = ("seeded histories interleaving every read API (and some writes) on 1-3 o
         "transition-driven: a position is chosen and its value replaced so that (old kind -> new kind) "
         "ranges over {missing,null,bool,int,float,str,dict,list}^2, plus grown/shrunk containers, equal "
         "content and same-size rewrites without a timestamp bump. Truth = last content written by anyone; "
-        "every read is compared with the same read on the truth. distinct = case hash; non-trivial = "
+        "every read is compared with the same read on the truth. Stratum io_fault (JSON): a mutator fails with an "
+        "injected EIO during its load or its save and is not re-issued - the resource keeps its old content while "
+        "the memory may already hold the new one - and reads through the same handle, other objects and retained "
+        "children follow at once. distinct = case hash; non-trivial = "
         ">= 1 outside rewrite followed by >= 1 judged read.")
 ASSUMPTIONS = [
     "a retained child handle is asserted on only while attached by C02's own wording (conservative: "
     "dropped when its position ever held another kind, or was re-targeted through its own parent object)",
     "Redis/MongoDB/Zarr are in-process fakes",
 ]
-STRATA = ["clean", "collide"]
-PER = {"quick": {"clean": 400, "collide": 60}, "thorough": {"clean": 2500, "collide": 300}}
+STRATA = ["clean", "collide", "io_fault"]
+PER = {"quick": {"clean": 400, "collide": 60, "io_fault": 150},
+       "thorough": {"clean": 2500, "collide": 300, "io_fault": 1000}}
 
 KINDS = ["missing", "null", "bool", "int", "float", "str", "dict", "list"]
 
@@ -124,11 +128,14 @@ def rewrite(g, content, root_kind):
 
 
 def plan(tier, seed):
-    return common.plan_grid(tier, seed, common.class_cfgs(all_cfgs=False), PER, STRATA, pieces=4)
+    from vf import catalog
+
+    specs = common.plan_grid(tier, seed, common.class_cfgs(all_cfgs=False), PER, STRATA, pieces=4)
+    return [s for s in specs if s["stratum"] != "io_fault" or catalog.info(s["cls"]).backend == "json"]
 
 
 def make_case(spec, i):
-    return c04.build(spec, i, "C02", p_read=0.7, outside=True)
+    return c04.build(spec, i, "C02", p_read=0.7, outside=True, fault_mode="single")
 
 
 def _nontrivial(case, sess):
